@@ -8,7 +8,7 @@
 From VF Require Import Base.Prelude Gen.Enums Gen.Configs Gen.Policy Gen.Registry Gen.Checks
      Gen.MatDesc Gen.InstChecks Gen.Scopes Model.Recipe Model.Check Model.Graph
      Model.Plan Model.Perform Spec.WF Proofs.ListFacts Proofs.PerformStep Proofs.ModeProofs
-     Proofs.UntouchedProofs Model.Insts Proofs.InstsCover Proofs.ReadersProofs Proofs.PerformInv Proofs.SkeletonInv Proofs.ReadersOrig.
+     Proofs.UntouchedProofs Model.Insts Proofs.InstsCover Proofs.GroupNest Proofs.ReadersProofs Proofs.PerformInv Proofs.SkeletonInv Proofs.ReadersOrig.
 
 (* (a) mode -> per-operand transformation, for EVERY config in one of the
    three modes (static-range: integer compute with an activation config;
@@ -479,6 +479,19 @@ Theorem C03_generator_invents_no_instruction :
       \/ (exists pr, last_producer info p = Some pr /\ rewrite_of (consumers_list p) pr i) ).
 Proof. exact insts_exact. Qed.
 Print Assumptions C03_generator_invents_no_instruction.
+
+(* (g) horizontal grouping produces NESTS: at every depth the groups of consumer
+   indices are pairwise disjoint and repetition-free (`NoDup (flat lv)`), and
+   every group of depth d+1 lies inside one group of depth d (`nested_in`) — for
+   every plan entry.  This is the shape of consumer lists the performer's
+   re-targeting theorem (C03_last_instruction_of_a_nested_list_...) assumes. *)
+Theorem C03_horizontal_grouping_produces_nests :
+  forall p groups,
+    group_consumer_transformations p = Ok groups ->
+    forall j lv, nth_opt groups j = Some lv ->
+      NoDup (flat lv) /\ forall lv', nth_opt groups (S j) = Some lv' -> nested_in lv lv'.
+Proof. exact groups_are_nests. Qed.
+Print Assumptions C03_horizontal_grouping_produces_nests.
 
 (* non-vacuity: a quantized producer (DEQUANTIZE with A) read by
    op 3 (QUANTIZE with A), ops 4 and 6 (QUANTIZE with B, then DEQUANTIZE) and
